@@ -1,6 +1,7 @@
 package stageb
 
 import (
+	"embed"
 	"encoding/json"
 	"fmt"
 	"os"
@@ -12,8 +13,37 @@ import (
 	"verifsim/stagea"
 )
 
+//go:embed corpus/*.json
+var corpusFS embed.FS
+
+// corpusSpecs are fixed specifications that every C09 world includes first:
+// the failing inputs of the known findings, so that each listed finding is
+// re-found (and printed as KNOWN-FINDING) on every run, in every tier.
+func corpusSpecs() []*specgen.Spec {
+	var out []*specgen.Spec
+	ents, _ := corpusFS.ReadDir("corpus")
+	for _, e := range ents {
+		data, err := corpusFS.ReadFile("corpus/" + e.Name())
+		if err != nil {
+			continue
+		}
+		var s specgen.Spec
+		if json.Unmarshal(data, &s) == nil && len(s.Rules) > 0 {
+			out = append(out, &s)
+		}
+	}
+	return out
+}
+
 func parserCandidate(seed uint64) Candidate {
+	corpus := corpusSpecs()
 	return func(i int) (*specgen.Spec, bool) {
+		if i < len(corpus) {
+			b, _ := json.Marshal(corpus[i])
+			var c specgen.Spec
+			json.Unmarshal(b, &c)
+			return &c, true
+		}
 		s := specgen.Generate(core.Derive(seed, "c09-spec", i), specgen.Options{RichParser: true, RealLexable: true})
 		return s, true
 	}
